@@ -35,9 +35,14 @@ pub struct AvroFmt {
     pub cfg: AvroCfg,
     /// sync marker of the most recent OCF writer (random per writer; replaced in `normalise`)
     pub marker: Mutex<Option<[u8; 16]>>,
+    /// offsets of the sync markers in the fault-free output (recorded by the first `normalise`)
+    pub marker_at: Mutex<Option<Vec<usize>>>,
 }
 
 impl AvroFmt {
+    pub fn new(wl: Workload, cfg: AvroCfg) -> Self {
+        AvroFmt { wl, cfg, marker: Mutex::new(None), marker_at: Mutex::new(None) }
+    }
     pub fn gen_cfg(ctx: &Ctx, ocf: bool) -> AvroCfg {
         AvroCfg { ocf, codec: ctx.draw(6, "avro.codec") as u8, batch_size: *ctx.pick(&[1024, 1, 2, 3, 7], "avro.batch") }
     }
@@ -115,13 +120,30 @@ impl Fmt for AvroFmt {
     }
     fn normalise(&self, _ctx: &Ctx, mut bytes: Vec<u8>) -> Vec<u8> {
         if let Some(m) = *self.marker.lock().unwrap() {
+            let mut found = Vec::new();
             let mut i = 0;
             while i + 16 <= bytes.len() {
                 if bytes[i..i + 16] == m {
                     bytes[i..i + 16].copy_from_slice(&FIXED_MARKER);
+                    found.push(i);
                     i += 16;
                 } else {
                     i += 1;
+                }
+            }
+            let mut at = self.marker_at.lock().unwrap();
+            match at.as_ref() {
+                // first call: the complete fault-free output
+                None => *at = Some(found),
+                // a marker cut short by the end of the data (failed sink, truncated file): only where the
+                // fault-free output has one, so that a chance match of one or two bytes is not rewritten
+                Some(pos) => {
+                    let n = bytes.len();
+                    for &p in pos {
+                        if p < n && p + 16 > n && bytes[p..] == m[..n - p] {
+                            bytes[p..].copy_from_slice(&FIXED_MARKER[..n - p]);
+                        }
+                    }
                 }
             }
         }
